@@ -1,10 +1,20 @@
 #!/bin/bash
-# usage: tools/run_all.sh quick|thorough   -> one line per check: id exit wall
+# usage: tools/run_all.sh quick|thorough   -> one line per check; summary kept in docs/timing_<tier>.json
 tier=${1:-quick}
 cd /verif
+tmp=$(mktemp)
+echo "{" > $tmp
+first=1
 for i in 01 02 03 04 05 06 07 08 09 10 11 12 13 14 15 16 17 18 19 20; do
   s=$(date +%s.%N)
   out=$(./check C$i --tier $tier 2>&1); rc=$?
   e=$(date +%s.%N)
-  printf "C%s exit=%d wall=%.1fs  %s\n" $i $rc $(echo "$e - $s" | bc) "$(echo "$out" | grep -c '^KNOWN-FINDING') known, $(echo "$out" | grep -c '^VIOLATION') violations, $(echo "$out" | grep -c '^machinery') machinery"
+  wall=$(echo "$e - $s" | bc)
+  printf "C%s exit=%d wall=%.1fs  %s\n" $i $rc $wall "$(echo "$out" | grep -c '^KNOWN-FINDING') known, $(echo "$out" | grep -c '^VIOLATION') violations, $(echo "$out" | grep -c '^machinery') machinery"
+  [ $first = 1 ] || echo "," >> $tmp; first=0
+  printf '"C%s": {"exit": %d, "wall_s": %.1f, "known": %d, "evidence": ' $i $rc $wall "$(echo "$out" | grep -c '^KNOWN-FINDING')" >> $tmp
+  jq -c '{evaluations: .coverage.evaluations, states: .coverage.states, transitions: .coverage.transitions, traces: .coverage.traces_validated_against_impl, distinct_nontrivial: .coverage.distinct_nontrivial, exhaustive: .coverage.exhaustive}' evidence/C$i.json >> $tmp
+  echo "}" >> $tmp
 done
+echo "}" >> $tmp
+jq . $tmp > docs/timing_$tier.json && rm -f $tmp
